@@ -1091,6 +1091,18 @@ fn with_same_fragment_service(doc: &RealDoc, json: &str, other_did: &str, frag: 
   let text = serde_json::to_string(&v).ok()?;
   guard(|| doc.from_json(&text)).ok().flatten()
 }
+/// The document of this state with a second type added to its service `frag` (DID core: `type` is a set of strings;
+/// the library's conversion asks whether that set CONTAINS RevocationBitmap2022). `first`: the added type comes first.
+fn with_second_service_type(doc: &RealDoc, json: &str, did: &str, frag: &str, first: bool) -> Option<RealDoc> {
+  let mut v: serde_json::Value = serde_json::from_str(json).ok()?;
+  let id = format!("{did}#{frag}");
+  let core = if v.get("doc").is_some() { &mut v["doc"] } else { &mut v };
+  let list = core.get_mut("service")?.as_array_mut()?;
+  let svc = list.iter_mut().find(|s| s.get("id").and_then(|i| i.as_str()) == Some(&id))?;
+  svc["type"] = if first { json!(["CredentialRegistry", "RevocationBitmap2022"]) } else { json!(["RevocationBitmap2022", "CredentialRegistry"]) };
+  let text = serde_json::to_string(&v).ok()?;
+  guard(|| doc.from_json(&text)).ok().flatten()
+}
 const THIRD_CORE_DID: &str = "did:example:9999";
 const THIRD_IOTA_DID: &str = "did:iota:0xcccccccccccccccccccccccccccccccccccccccccccccccccccccccccccccccc";
 
@@ -1182,6 +1194,16 @@ enum Diff {
   Rejected(usize, String),
   Member(usize, u32, bool),
   Card(usize, u64),
+}
+impl Diff {
+  fn describe(&self) -> String {
+    match self {
+      Diff::Panic(p) => format!("panic: {}", p.msg),
+      Diff::Rejected(k, e) => format!("service {} does not decode: {e}", SVC[*k]),
+      Diff::Member(k, i, got) => format!("service {}: index {i} reads {got}", SVC[*k]),
+      Diff::Card(k, n) => format!("service {} holds {n} members", SVC[*k]),
+    }
+  }
 }
 
 impl HModel {
@@ -1455,6 +1477,70 @@ impl HModel {
                   self.col.violation(&format!("{entry}|status-id-names-a-service-the-issuer-document-does-not-hold|accepted"), &format!("{} third DID, service {} index {i} after {:?}", s.doc.kind(), SVC[k], s.hist), case);
                 }
                 self.col.outcome(&format!("status:two-same-fragment-services:third-did:{}", res_label(&r)));
+              }
+            }
+          }
+        }
+      }
+    }
+    // the bitmap service carries a second type besides RevocationBitmap2022 (either order): it is still the service
+    // the bitmap was encoded into — it decodes to the same set, answers status checks, and is updated through the document
+    for k in 0..2 {
+      for first in [true, false] {
+        let Some(mut doc2) = with_second_service_type(&s.doc, &s.fp, did, SVC[k], first) else {
+          self.col.outcome(&format!("service-with-a-second-type:{}:document-not-rebuilt(unjudged)", s.doc.kind()));
+          continue;
+        };
+        self.col.eval1();
+        match self.diff(&doc2, &s.model) {
+          None => self.col.outcome("service-with-a-second-type:decodes-to-the-same-sets"),
+          Some(Diff::Panic(p)) => self.col.violation(&format!("resolve_revocation_bitmap|{}", p.key()), &p.msg, case),
+          Some(d) => self.col.violation(
+            "resolve_revocation_bitmap|service-with-a-second-type|bitmap-not-read-back",
+            &format!("{} service {} typed {}: {} after {:?}", s.doc.kind(), SVC[k], if first { "[other, RevocationBitmap2022]" } else { "[RevocationBitmap2022, other]" }, d.describe(), s.hist),
+            case,
+          ),
+        }
+        for i in probes_of(self.uni) {
+          let member = s.model[k].contains(&i);
+          let rbs = RevocationBitmapStatus::new(svc_url(did, SVC[k]), i);
+          let cred = credential(did, Some(rbs.clone().into()));
+          let what = format!("service {} (second type {}) index {i}", SVC[k], if first { "first" } else { "last" });
+          self.col.eval1();
+          let r = guard(|| doc2.check_status(&cred, StatusCheck::Strict));
+          let got = self.judge_canonical(s, "check_status|service-with-a-second-type", &what, r, member, case);
+          self.col.outcome(&format!("status:service-with-a-second-type:{got}"));
+          self.col.eval1();
+          let r = guard(|| doc2.check_bitmap_status(rbs));
+          let got = self.judge_canonical(s, "check_revocation_bitmap_status|service-with-a-second-type", &what, r, member, case);
+          self.col.outcome(&format!("status:direct:service-with-a-second-type:{got}"));
+        }
+        // one revoke and one unrevoke of the first probe index through the document
+        let i = probes_of(self.uni)[0];
+        let q = svc_url(did, SVC[k]);
+        for revoke in [true, false] {
+          self.col.eval1();
+          match guard(|| doc2.apply(&q, revoke, &[i])) {
+            Err(p) => self.col.violation(&format!("{}|{}", if revoke { "revoke_credentials" } else { "unrevoke_credentials" }, p.key()), &p.msg, case),
+            Ok(Err(e)) => self.col.violation(
+              &format!("{}|service-with-a-second-type|refused", if revoke { "revoke_credentials" } else { "unrevoke_credentials" }),
+              &format!("{} service {}: {e} after {:?}", s.doc.kind(), SVC[k], s.hist),
+              case,
+            ),
+            Ok(Ok(())) => {
+              let mut m = s.model.clone();
+              if revoke {
+                m[k].insert(i);
+              } else {
+                m[k].remove(&i);
+              }
+              // (the unrevoke follows the revoke on the same document)
+              if let Some(d) = self.diff(&doc2, &m) {
+                self.col.violation(
+                  &format!("{}|service-with-a-second-type|membership-differs", if revoke { "revoke_credentials" } else { "unrevoke_credentials" }),
+                  &format!("{} service {}: {} after {:?}", s.doc.kind(), SVC[k], d.describe(), s.hist),
+                  case,
+                );
               }
             }
           }
